@@ -222,7 +222,7 @@ def readArray (cfg : Cfg) : Ty → Nat → Ctx → Bytes → Nat → Except Err 
     match readScalarArray cfg s n data pos with
     | some r => r
     | none => (readN cfg (.sc s a) n ctx data pos).map fun (vs, p) => (.list vs, p)
-  | .enum b a f, n, ctx, data, pos =>
+  | .enum b a _, n, ctx, data, pos =>
     -- EnumMetaType._read_array: list(map(cls, cls.type._read_array(...)))
     match readScalarArray cfg b n data pos with
     | some (.ok (.list vs, p)) => .ok (.list vs.mapEnum, p)
@@ -297,7 +297,7 @@ def readEOF (cfg : Cfg) : Ty → Ctx → Bytes → Nat → Except Err (Val × Na
     match readScalarArrayEOF cfg s data pos with
     | some r => r
     | none => (readWhileData cfg (.sc s a) ctx data (data.length - pos + 1) pos).map fun (vs, p) => (.list vs, p)
-  | .enum b a f, ctx, data, pos =>
+  | .enum b a _, ctx, data, pos =>
     match readScalarArrayEOF cfg b data pos with
     | some (.ok (.list vs, p)) => .ok (.list vs.mapEnum, p)
     | some (.ok _) => .error .typeErr
